@@ -120,7 +120,7 @@ def run(ctx):
                     vals = [path_return(h, p) for p in enum_paths(h) if (bb, tt) in zip(p, p[1:])]
                     okv = bool(vals) and all(r[0] == "agg" and r[2] == "Rejected" and mentions(r, lambda s: s[0] == "agg" and s[2] == "KeyAlreadyExists") for r in vals)
                     ctx.check(okv, "R07.5", "%s|present-is-rejected" % name, "a key found present at execution time is answered Rejected(KeyAlreadyExists)", h.where(bb))
-    ctx.floor("R07.5", "put handlers on the worker", n_h, 2)
+    ctx.floor("R07.5", "put handlers on the worker", n_h, 1)
 
     # ---- R07.4 the existence test must wait for the shard: try_* lookups answer "absent" while a writer holds it
     for m in ("try_get", "try_get_mut"):
